@@ -6,11 +6,15 @@ import (
 	"go/ast"
 	"go/parser"
 	"go/token"
+	"go/types"
 	"reflect"
+	"strconv"
+	"strings"
 
 	"github.com/dave/dst"
 	"github.com/dave/dst/decorator"
 	"github.com/dave/dst/decorator/resolver/goast"
+	"github.com/dave/dst/decorator/resolver/gotypes"
 	"github.com/dave/dst/decorator/resolver/guess"
 	"github.com/dave/dst/decorator/resolver/simple"
 
@@ -29,6 +33,10 @@ type c11Case struct {
 	// to change the import declarations: rebuild | alias | addref (see c12ImportEdit) | unused (every
 	// other declaration removed, so every import is dropped)
 	ImportEdit string `json:"import_edit,omitempty"`
+	// Typed: decorated with the types-based resolver over a type-checked parse; SkipObj: parsed with
+	// parser.SkipObjectResolution (no identifier carries an Obj)
+	Typed   bool `json:"typed,omitempty"`
+	SkipObj bool `json:"skip_object_resolution,omitempty"`
 }
 
 var c11ImportEdits = []string{"rebuild", "alias", "addref", "unused"}
@@ -86,6 +94,17 @@ func allAstNodes(root ast.Node) []ast.Node {
 
 func astTypeName(n ast.Node) string { return reflect.TypeOf(n).Elem().Name() }
 
+// checkMapsQualified, when set, tells checkMaps from type information whether a selector is a
+// qualified identifier.
+var checkMapsQualified func(*ast.SelectorExpr) bool
+
+func describeAst(n ast.Node) string {
+	if id, ok := n.(*ast.Ident); ok {
+		return id.Name
+	}
+	return astTypeName(n)
+}
+
 // checkMaps verifies the laws of C11 for one (ast tree, dst tree, maps) triple.
 func checkMaps(side string, af *ast.File, df *dst.File, toDst map[ast.Node]dst.Node, toAst map[dst.Node]ast.Node) (key, desc string) {
 	for k := range toDst {
@@ -111,6 +130,41 @@ func checkMaps(side string, af *ast.File, df *dst.File, toDst map[ast.Node]dst.N
 		_, isSel := a.(*ast.SelectorExpr)
 		id, isId := d.(*dst.Ident)
 		return isSel && isId && id.Path != ""
+	}
+	// only a qualified identifier (selector on a package name) may collapse: decided from type information
+	// when the caller has it (checkMapsQualified), else from the syntax (X is an unresolved identifier
+	// spelled like one of the file's imports)
+	importNames := map[string]bool{}
+	var importSpecs []*ast.ImportSpec // from the declarations: a restored ast has no File.Imports
+	for _, dcl := range af.Decls {
+		if gd, ok := dcl.(*ast.GenDecl); ok && gd.Tok == token.IMPORT {
+			for _, s := range gd.Specs {
+				importSpecs = append(importSpecs, s.(*ast.ImportSpec))
+			}
+		}
+	}
+	for _, is := range importSpecs {
+		p, _ := strconv.Unquote(is.Path.Value)
+		switch {
+		case is.Name != nil:
+			importNames[is.Name.Name] = true
+		case stdNames[p] != "":
+			importNames[stdNames[p]] = true
+		default:
+			importNames[p[strings.LastIndex(p, "/")+1:]] = true
+		}
+	}
+	qualified := func(sel *ast.SelectorExpr) bool {
+		if checkMapsQualified != nil {
+			return checkMapsQualified(sel)
+		}
+		x, ok := sel.X.(*ast.Ident)
+		return ok && x.Obj == nil && importNames[x.Name]
+	}
+	for _, a := range anodes {
+		if sel, ok := a.(*ast.SelectorExpr); ok && collapsed(a, toDst[a]) && !qualified(sel) {
+			return side + ":non-qualified-selector-collapsed", fmt.Sprintf("selector %s.%s is not a qualified identifier (its X is not a package name) but maps to one path-carrying identifier", describeAst(sel.X), sel.Sel.Name)
+		}
 	}
 	for _, a := range anodes {
 		d, ok := toDst[a]
@@ -186,8 +240,8 @@ func init() {
 	core.Register(&core.Prop{
 		ID:    "C11",
 		Level: "model_checking",
-		Rule: "every corpus template (quick: plus every <=1 gap insertion; thorough: <=2), every file of the non-canonical corpus as written (stray semicolons, redundant parentheses, unsorted imports; <=1 insertion, not canonicalised) x {no resolver, goast resolver}: Decorator.Map after DecorateFile and Restorer.Map after RestoreFile " +
-			"(with import management when a resolver is used, so identifiers expand to selectors) are checked against ast.Inspect / reflection walks: total, typed, in-tree, mutually inverse (collapsed selectors excepted), " +
+		Rule: "every corpus template (quick: plus every <=1 gap insertion; thorough: <=2), every file of the non-canonical corpus as written (stray semicolons, redundant parentheses, unsorted imports; <=1 insertion, not canonicalised) x {no resolver, goast resolver; import-bearing templates also with the types-based resolver on parses with and without object resolution}: Decorator.Map after DecorateFile and Restorer.Map after RestoreFile " +
+			"(with import management when a resolver is used, so identifiers expand to selectors) are checked against ast.Inspect / reflection walks: total, typed, in-tree, mutually inverse (collapsed selectors excepted, and only selectors on package names may collapse), " +
 			"commuting with every parent/child edge, no nil keys; plus every ordered pair of import-bearing files restored by one Restorer with import management, both files' maps examined after the second restore; every import-bearing file restored after an edit that forces the restorer to change the import declarations (imports removed so that they are recreated, renamed through Alias, a new reference added, all references removed); and DecorateNode on a 3-file *ast.Package with and without a resolver; state = (canonical text, resolver); non-trivial = file with a collapsed selector or an inserted decoration",
 		Assumptions: []string{"syntactic children are the Node-typed fields found by reflection on go/ast and dst types"},
 		Units: func(tier string) []string {
@@ -235,6 +289,13 @@ func init() {
 				a := importTemplates()[unit-n]
 				// restores that have to change the import declarations (the maps must describe the tree
 				// the caller passed in, as the restore left it)
+				// the types-based resolver, on a parse with and without object resolution
+				for _, skip := range []bool{false, true} {
+					cs := c11Case{Src: a.Src, Resolver: true, Typed: true, SkipObj: skip}
+					ctx.State(fmt.Sprint("typed|", a.Name, "|", skip), true)
+					ctx.R.Transitions++
+					ctx.Eval(cs, c11Check(cs))
+				}
 				for _, e := range c11ImportEdits {
 					cs := c11Case{Src: a.Src, Resolver: true, ImportEdit: e}
 					ctx.State("import-edit|"+a.Name+"|"+e, true)
@@ -331,7 +392,28 @@ func c11Check(cs c11Case) core.Outcome {
 		return core.Outcome{OK: true}
 	}
 	var dec *decorator.Decorator
-	if cs.Resolver && (cs.Src2 != "" || cs.ImportEdit != "") {
+	checkMapsQualified = nil
+	defer func() { checkMapsQualified = nil }()
+	if cs.Typed {
+		mode := parser.ParseComments
+		if cs.SkipObj {
+			mode |= parser.SkipObjectResolution
+		}
+		chk, cerr := stdWorld.CheckMode("example.com/local", map[string]string{"a.go": cs.Src}, mode)
+		if cerr != nil {
+			return core.Outcome{OK: true} // not type-correct in the standard world: outside this mode
+		}
+		fset, af = chk.Fset, chk.Files[0]
+		dec = decorator.NewDecoratorWithImports(fset, "example.com/local", gotypes.New(chk.Info.Uses))
+		checkMapsQualified = func(sel *ast.SelectorExpr) bool {
+			x, ok := sel.X.(*ast.Ident)
+			if !ok {
+				return false
+			}
+			_, isPkg := chk.Info.Uses[x].(*types.PkgName)
+			return isPkg
+		}
+	} else if cs.Resolver && (cs.Src2 != "" || cs.ImportEdit != "") {
 		dec = decorator.NewDecoratorWithImports(fset, "example.com/local", goast.WithResolver(simple.New(stdNames)))
 	} else if cs.Resolver {
 		dec = decorator.NewDecoratorWithImports(fset, "example.com/local", goast.New())
@@ -348,6 +430,7 @@ func c11Check(cs c11Case) core.Outcome {
 	if k, d := checkMaps("decorator", af, df, dec.Dst.Nodes, dec.Ast.Nodes); k != "" {
 		return fail(k, "Decorator.Map: "+d)
 	}
+	checkMapsQualified = nil // the restored ast is judged by its syntax
 	var alias map[string]string
 	switch cs.ImportEdit {
 	case "":
@@ -363,7 +446,7 @@ func c11Check(cs c11Case) core.Outcome {
 		alias = c12ImportEdit(df, cs.ImportEdit)
 	}
 	var res *decorator.Restorer
-	if cs.Resolver && (cs.Src2 != "" || cs.ImportEdit != "") {
+	if cs.Typed || cs.Resolver && (cs.Src2 != "" || cs.ImportEdit != "") {
 		res = decorator.NewRestorerWithImports("example.com/local", simple.New(stdNames))
 	} else if cs.Resolver {
 		res = decorator.NewRestorerWithImports("example.com/local", guess.New())
